@@ -36,6 +36,16 @@ func (h *H) checkChol(id string, seedIdx, n int, ul blas.Uplo, cls string, deep 
 		kappa = 1e6
 	}
 	a := spd(rng, n, kappa)
+	if isExtreme(cls) {
+		if n == 0 {
+			return
+		}
+		e := subExp + 6 // entries ~ 2^-1040: subnormal, eigenvalues far above the grid
+		if cls == clsHuge {
+			e = hugeExp
+		}
+		a = ldexpM(a, e)
+	}
 	indefinite := false
 	if cls == "psdzero" {
 		if n == 0 {
@@ -106,7 +116,7 @@ func (h *H) checkChol(id string, seedIdx, n int, ul blas.Uplo, cls string, deep 
 			}
 		}
 		resid := ref.MaxDiff(a, cholProduct(t, upper))
-		cs.band(c.routine, tag, "chol-reconstruction", resid, float64(n)*eps*amax, func() string {
+		cs.band(c.routine, tag, "chol-reconstruction", resid, float64(n)*(eps*amax+subFloor), func() string {
 			return fmt.Sprintf("%v n=%d class=%s", c.cf, n, cls)
 		})
 		facts = append(facts, t)
@@ -121,6 +131,9 @@ func (h *H) checkChol(id string, seedIdx, n int, ul blas.Uplo, cls string, deep 
 		cs.band("Dpotrf~Dpotf2", tag, "chol-differential", d, float64(n)*eps*kappa*facts[0].MaxAbs(), func() string {
 			return fmt.Sprintf("n=%d class=%s %s vs %s", n, cls, fnames[i], fnames[0])
 		})
+	}
+	if isExtreme(cls) {
+		return // the inverse and the solutions leave the finite range
 	}
 	fact := facts[1]
 	ainv, okInv := ref.Inverse(a)
@@ -260,6 +273,10 @@ func (h *H) checkPstrf(id string, seedIdx, n int, ul blas.Uplo, cls string, deep
 	case "spec":
 		a = spd(rng, n, 1e6)
 		kappa = 1e6
+	case clsSub:
+		a = ldexpM(spd(rng, n, 10), subExp+6)
+	case clsHuge:
+		a = ldexpM(spd(rng, n, 10), hugeExp)
 	case "rank":
 		if n < 2 {
 			return
@@ -347,7 +364,7 @@ func (h *H) checkPstrf(id string, seedIdx, n int, ul blas.Uplo, cls string, deep
 			prod = ref.Mul(subRows(l, 0, rank), l.T()) // rank x n
 		}
 		resid := ref.MaxDiff(subRows(pap, 0, rank), prod)
-		cs.band(c.routine, tag, "pstrf-reconstruction", resid, float64(n)*eps*amax, func() string { return what + fmt.Sprintf(" rank=%d", rank) })
+		cs.band(c.routine, tag, "pstrf-reconstruction", resid, float64(n)*(eps*amax+subFloor), func() string { return what + fmt.Sprintf(" rank=%d", rank) })
 		// Non-increasing diagonal of the factor.
 		for i := 1; i < rank; i++ {
 			if t.D[i*n+i] > t.D[(i-1)*n+(i-1)]*(1+16*float64(n)*eps*kappa) {
